@@ -86,7 +86,7 @@ func (g *progGen) rule(maxBody int, query bool) (ARule, bool) {
 	if len(vs) > 0 && g.r.Intn(3) == 0 {
 		o := []string{"lt", "le", "eq", "ne"}[g.r.Intn(4)]
 		if g.strOps {
-			o = []string{"pre", "pre", "eq", "ne"}[g.r.Intn(4)]
+			o = []string{"pre", "re", "re", "eq", "ne"}[g.r.Intn(5)]
 		}
 		l := vs[g.r.Intn(len(vs))]
 		rr := g.r.Intn(g.consts)
@@ -128,6 +128,7 @@ func init() {
 		r := rand.New(rand.NewSource(seed))
 		for i := 0; i < n; i++ {
 			g := newProgGen(r)
+			g.strOps = i%3 == 0 // starts_with / matches guards instead of the order comparisons
 			c := RunCase{ID: fmt.Sprintf("g%d", i), Emb: seed*1000003 + int64(i), Facts: [][]int{}, Rules: []ARule{}, Queries: []ARule{}, MF: 1000, MI: 100}
 			nf := r.Intn(7)
 			for k := 0; k < nf; k++ {
@@ -213,7 +214,7 @@ func init() {
 				q, _ := g.rule(1, true)
 				q.H = []int{99}
 				if vs := bodyVars(q.B); len(vs) > 0 {
-					q.G = []AGuard{{O: "pre", L: vs[0], R: g.consts + 1}}
+					q.G = []AGuard{{O: []string{"pre", "re"}[r.Intn(2)], L: vs[0], R: g.consts + 1}}
 					az.P = append([]APolicy{{Kind: []string{"deny", "allow"}[r.Intn(2)], Q: []ARule{q}}}, az.P...)
 				}
 			}
